@@ -126,11 +126,14 @@ def atoms_event(c):
     return ev
 
 
-def make_measurement(typ, cx, lazy):
+def make_measurement(typ, cx, lazy, axes_kind="scan"):
     import abtem
-    from abtem.core.axes import ScanAxis
+    from abtem.core.axes import ScanAxis, AxisAlignedTiltAxis, ThicknessAxis
     dt = np.complex64 if cx else np.float32
     axes = [ScanAxis(label="x", sampling=0.2, units="Å"), ScanAxis(label="y", sampling=0.2, units="Å")]
+    if axes_kind == "series":
+        # a tilt series (along y) and a thickness series: axes whose selected item is written into the metadata of the result
+        axes = [AxisAlignedTiltAxis(label="tilt_y", values=(10.0, 20.0), direction="y"), ThicknessAxis(values=(5.0, 10.0, 15.0))]
     base = {"Images": (6, 6), "DiffractionPatterns": (6, 6), "RealSpaceLineProfiles": (8,), "PolarMeasurements": (3, 4)}[typ]
     ens = (2, 3) if typ in ("DiffractionPatterns", "PolarMeasurements") else (2,)
     arr = (np.arange(int(np.prod(ens + base))).reshape(ens + base) % 7 + 1.0).astype(dt)
@@ -140,6 +143,8 @@ def make_measurement(typ, cx, lazy):
         import dask.array as da
         arr = da.from_array(arr, chunks=(1,) * len(ens) + base)
     md = {"energy": 100e3, "label": "original", "units": "orig"}
+    if axes_kind == "series":
+        md.update({"base_tilt_x": 1.0, "base_tilt_y": 2.0})
     ax = axes[: len(ens)]
     if typ == "Images":
         return abtem.Images(arr, sampling=0.2, ensemble_axes_metadata=ax, metadata=md)
@@ -209,6 +214,33 @@ def measurement_events(c):
                 ev["exc"] = f"{type(ex).__name__}: {ex}"[:120]
             ev["after"] = snap_measurement(m)
             evs.append(ev)
+    # operators are methods too: indexing (twice with the same item), arithmetic and negation on a measurement whose ensemble axes are a
+    # tilt series and a thickness series
+    ops = [("__getitem__", (0,)), ("__getitem__", (0,)), ("__getitem__", (1, 0) if typ in ("DiffractionPatterns", "PolarMeasurements") else (1,)),
+           ("__getitem__", (slice(0, 1),)), ("__add__", "self"), ("__sub__", "self"), ("__mul__", 2.0), ("__truediv__", 2.0), ("__neg__", None),
+           ("__pow__", 2.0)]
+    m = make_measurement(typ, cx, lazy, axes_kind="series")
+    for name, arg in ops:
+        ev = {"target": "measurement", "callee": f"{typ}.{name}", "kind": [cx, lazy], "raised": False, "before": snap_measurement(m), "after": ""}
+        try:
+            with warnings.catch_warnings():
+                warnings.simplefilter("ignore")
+                fn = getattr(m, name, None)
+                if fn is None:
+                    continue
+                if name == "__getitem__":
+                    out = m[arg if len(arg) > 1 else arg[0]]
+                elif arg is None:
+                    out = fn()
+                else:
+                    out = fn(make_measurement(typ, cx, lazy, axes_kind="series") if arg == "self" else arg)
+                if hasattr(out, "compute") and lazy:
+                    out.compute()
+        except Exception as ex:
+            ev["raised"] = True
+            ev["exc"] = f"{type(ex).__name__}: {ex}"[:120]
+        ev["after"] = snap_measurement(m)
+        evs.append(ev)
     return evs, not_exercised
 
 
